@@ -1,0 +1,56 @@
+//go:build verif
+
+/*
+ * Licensed to the Apache Software Foundation (ASF) under one or more
+ * contributor license agreements.  See the NOTICE file distributed with
+ * this work for additional information regarding copyright ownership.
+ * The ASF licenses this file to You under the Apache License, Version 2.0
+ * (the "License"); you may not use this file except in compliance with
+ * the License.  You may obtain a copy of the License at
+ *
+ *     http://www.apache.org/licenses/LICENSE-2.0
+ *
+ * Unless required by applicable law or agreed to in writing, software
+ * distributed under the License is distributed on an "AS IS" BASIS,
+ * WITHOUT WARRANTIES OR CONDITIONS OF ANY KIND, either express or implied.
+ * See the License for the specific language governing permissions and
+ * limitations under the License.
+ */
+
+package client
+
+// Verification contracts for property C15 (comment-only, tag verif): every coordinator phase-two
+// request is routed to the resource manager registered for its branch type, called exactly once
+// with the request's identifiers, and answered by exactly one response that carries the request's
+// message id, xid, branch id and the manager's status; no success is reported when the manager fails;
+// nothing but the response log is written (independence of requests).
+
+//@ func (*rmBranchCommitProcessor).Process
+//@   prop C15
+//@   requires isT(rpcMessage.Body, message.BranchCommitRequest)
+//@   let req := rpcMessage.Body.(message.BranchCommitRequest)
+//@   requires ghost.sent == 0 && ghost.rmcalls == 0
+//@   let mgr := syncmap(rm.rmCacheInstance, "resourceManagerMap")[box(req.BranchType, branch.BranchType)]
+//@   requires mgr != nil
+//@   ensures routed: ghost.rmcalls == 1 && ghost.rm_kind == 1 && ghost.rm_self == mgr
+//@   ensures arguments: ghost.rm_xid == req.Xid && ghost.rm_branch == req.BranchId && ghost.rm_resource == req.ResourceId && ghost.rm_data == req.ApplicationData
+//@   ensures one-reply: ghost.rm_err_nil ==> ghost.sent == 1 && ghost.sent_id == rpcMessage.ID && ghost.sent_type == 1 && isT(ghost.sent_body, message.BranchCommitResponse)
+//@   ensures reply-content: ghost.rm_err_nil ==> ghost.sent_body.(message.BranchCommitResponse).Xid == req.Xid && ghost.sent_body.(message.BranchCommitResponse).BranchId == req.BranchId && ghost.sent_body.(message.BranchCommitResponse).BranchStatus == ghost.rm_status && ghost.sent_body.(message.BranchCommitResponse).ResultCode == 1
+//@   ensures no-false-success: !ghost.rm_err_nil ==> ghost.sent == 0 && result != nil
+//@   ensures truthful-nil: result == nil ==> ghost.sent == 1 && ghost.sent_err_nil
+//@   ensures frame: wrote_nothing()
+
+//@ func (*rmBranchRollbackProcessor).Process
+//@   prop C15
+//@   requires isT(rpcMessage.Body, message.BranchRollbackRequest)
+//@   let req := rpcMessage.Body.(message.BranchRollbackRequest)
+//@   requires ghost.sent == 0 && ghost.rmcalls == 0
+//@   let mgr := syncmap(rm.rmCacheInstance, "resourceManagerMap")[box(req.BranchType, branch.BranchType)]
+//@   requires mgr != nil
+//@   ensures routed: ghost.rmcalls == 1 && ghost.rm_kind == 2 && ghost.rm_self == mgr
+//@   ensures arguments: ghost.rm_xid == req.Xid && ghost.rm_branch == req.BranchId && ghost.rm_resource == req.ResourceId && ghost.rm_data == req.ApplicationData
+//@   ensures one-reply: ghost.rm_err_nil ==> ghost.sent == 1 && ghost.sent_id == rpcMessage.ID && ghost.sent_type == 1 && isT(ghost.sent_body, message.BranchRollbackResponse)
+//@   ensures reply-content: ghost.rm_err_nil ==> ghost.sent_body.(message.BranchRollbackResponse).Xid == req.Xid && ghost.sent_body.(message.BranchRollbackResponse).BranchId == req.BranchId && ghost.sent_body.(message.BranchRollbackResponse).BranchStatus == ghost.rm_status && ghost.sent_body.(message.BranchRollbackResponse).ResultCode == 1
+//@   ensures no-false-success: !ghost.rm_err_nil ==> ghost.sent == 0 && result != nil
+//@   ensures truthful-nil: result == nil ==> ghost.sent == 1 && ghost.sent_err_nil
+//@   ensures frame: wrote_nothing()
